@@ -56,6 +56,7 @@ type Contract struct {
 	IsIface  bool
 	Requires []Clause
 	Ensures  []Clause
+	GhostEnsures []Clause // history-variable definitions: assumed at call sites, not checked in the body
 	Decr     *Clause
 	Pure     bool
 	Allocs   []string
@@ -132,7 +133,7 @@ func parseContractFile(P *Program, pkg *packages.Package, f *ast.File, name stri
 					return fail(fmt.Errorf("duplicate contract %s", cur.Key))
 				}
 				P.Contracts[cur.Key] = cur
-			case "requires", "ensures", "decreases":
+			case "requires", "ensures", "decreases", "ghostensures":
 				if cur == nil {
 					return fail(fmt.Errorf("clause outside contract"))
 				}
@@ -145,6 +146,8 @@ func parseContractFile(P *Program, pkg *packages.Package, f *ast.File, name stri
 					cur.Requires = append(cur.Requires, cl)
 				case "ensures":
 					cur.Ensures = append(cur.Ensures, cl)
+				case "ghostensures":
+					cur.GhostEnsures = append(cur.GhostEnsures, cl)
 				case "decreases":
 					cur.Decr = &cl
 				}
